@@ -108,11 +108,11 @@ Hypothesis P1a : d_mem (f_local f) (local_name W) = false.
 Hypothesis P1b : d_mem (f_local f) (ready_name W) = false.
 Hypothesis P1c : d_mem (up_dir f) (marker_name W) = false.
 Hypothesis P1d : forall g, d_mem (f_local f) g = true -> collect_ready c g = true ->
-                           contains (u_dir c ++ g) W = false.
+                           contains g W = false.
 (* the names of other weeks' reports do not contain W *)
 Hypothesis P2 : forall n id ct cf, d_find (f_local f) n = Some (id, ct) -> parse ct = Some cf ->
   uploader_week (cf_end cf) <> W ->
-  contains (u_dir c ++ ready_name (uploader_week (cf_end cf))) W = false.
+  contains (ready_name (uploader_week (cf_end cf))) W = false.
 (* all of W's files ended before the start, one has a counter *)
 Hypothesis Hall : forall n cf, wfile n cf -> before_start (cf_end cf) (u_start c) = true.
 Hypothesis Hne : exists n cf, wfile n cf /\ cf_counts cf <> [].
@@ -124,7 +124,7 @@ Definition NoL (fs : FS) : Prop := d_mem (f_local fs) (local_name W) = false.
 Definition NoR (fs : FS) : Prop := d_mem (f_local fs) (ready_name W) = false.
 Definition NoM (fs : FS) : Prop := d_mem (up_dir fs) (marker_name W) = false.
 
-Definition clean_r (t : thread) : Prop := forall g, In g (t_ready t) -> contains (u_dir c ++ g) W = false.
+Definition clean_r (t : thread) : Prop := forall g, In g (t_ready t) -> contains g W = false.
 Definition clean_u (t : thread) : Prop := forall u, t_uploaded t = Some u -> ~ In (marker_name W) u.
 Definition group_ok (l : list (bytes * cfile)) : Prop := forall n cf, In (n, cf) l <-> wfile n cf.
 
@@ -259,14 +259,14 @@ Proof.
   destruct (cf_counts cf); [contradiction|reflexivity].
 Qed.
 
-Lemma not_needed_clean t : clean_r t -> clean_u t -> not_needed (u_dir c) W (t_uploaded t) (t_ready t) = false.
+Lemma not_needed_clean t : clean_r t -> clean_u t -> not_needed W (t_uploaded t) (t_ready t) = false.
 Proof.
   intros Hr Hu. unfold not_needed. apply orb_false_iff. split.
   - destruct (t_uploaded t) as [u|] eqn:E; auto.
     destruct (existsb (beq (W ++ sfx_json)) u) eqn:Ex; auto.
     apply existsb_exists in Ex. destruct Ex as (x & Hx & Hb). apply beq_eq in Hb. subst x.
     exfalso. apply (Hu u E). exact Hx.
-  - destruct (existsb (fun g => contains (u_dir c ++ g) W) (t_ready t)) eqn:Ex; auto.
+  - destruct (existsb (fun g => contains g W) (t_ready t)) eqn:Ex; auto.
     apply existsb_exists in Ex. destruct Ex as (x & Hx & Hb). rewrite (Hr x Hx) in Hb. discriminate.
 Qed.
 
@@ -304,7 +304,7 @@ Qed.
 Lemma clean_r_finish t :
   names_inv t -> data_inv (f_local f) t -> in_rep (t_pc t) = true -> t_week t <> W -> clean_r t ->
   forall g, In g (if t_upok t then t_ready t ++ [ready_name (t_week t)] else t_ready t) ->
-            contains (u_dir c ++ g) W = false.
+            contains g W = false.
 Proof.
   intros N D Hp Hw Hc g Hg. destruct (t_upok t); auto.
   apply in_app_iff in Hg. destruct Hg as [Hg | [<- | []]]; auto.
@@ -402,14 +402,14 @@ Proof.
     destruct (beq w W) eqn:Ew.
     + (* W itself: the report is needed and has counters *)
       apply beq_eq in Ew. subst w.
-      rewrite Hcfg, (not_needed_clean t Hcl Hcu) in Hd.
+      rewrite (not_needed_clean t Hcl Hcu) in Hd.
       assert (Hfiles : files = glook W (t_weeks t)) by (unfold glook; rewrite Et; reflexivity).
       rewrite Hfiles, (has_counts_group _ Hg) in Hd. injection Hd as <- <-.
       right. unfold phaseB. simpl. split; [reflexivity|split; [exact Hg|split; assumption]].
     + (* another week *)
       apply beq_neq in Ew.
       assert (Hg' : group_ok (glook W rest)) by (rewrite (take_week_other _ _ _ _ _ Et Ew); exact Hg).
-      destruct (not_needed (u_dir (t_cfg t)) w (t_uploaded t) (t_ready t)).
+      destruct (not_needed w (t_uploaded t) (t_ready t)).
       * injection Hd as <- <-. left. apply phaseA_rep; auto; simpl; auto.
         destruct files; simpl; auto.
       * destruct (has_counts files); injection Hd as <- <-; left;
@@ -423,7 +423,7 @@ Proof.
       [|injection Hd as <- <-; left; unfold phaseA; rewrite Epc; auto 12].
     exfalso. destruct (glook_some W (t_weeks t) (glook_nonempty t Hg)) as [rest Et].
     apply take_week_in in Et. rewrite forallb_forall in Es. specialize (Es _ Et).
-    unfold silent in Es. simpl in Es. rewrite Hcfg, (not_needed_clean t Hcl Hcu) in Es.
+    unfold silent in Es. simpl in Es. rewrite (not_needed_clean t Hcl Hcu) in Es.
     rewrite (has_counts_group _ Hg) in Es. discriminate.
 Qed.
 
